@@ -28,6 +28,7 @@ def suite_call(ctx):
     svcs = cl.services_by_name()
     by_sid = {c._sid: c for c in svcs.values()}
     members = extract.int_consts(ResponseCode)
+    named_codes = {v for _, v in members}
     calls = entries.default_calls()
     if not ctx.thorough:
         seen = set()
@@ -46,6 +47,10 @@ def suite_call(ctx):
                     for tail in TAILS:
                         for sw in (True, False):
                             combos.append((code, k, tail, sw))
+            elif code in named_codes:
+                # a code with a standard name is the one a method would single out: both settings of the switch
+                combos.append((code, rng.randrange(4), rng.choice(TAILS), True))
+                combos.append((code, rng.randrange(4), rng.choice(TAILS), False))
             else:
                 combos.append((code, rng.randrange(4), rng.choice(TAILS), rng.random() < 0.5))
         for (code, k, tail, sw) in combos:
